@@ -262,7 +262,7 @@ func init() {
 		Prop{
 			ID: "C05",
 			Runs: []Run{
-				{Harness: "zzverif/zzh.ZZC05Zoo", Desc: "three-package zoo (interfaces with []byte, variadic vs slice, pointer depth, alias-typed and named parameters, func and map parameters, embedded interface, empty interface, a non-interface; types with value/pointer receivers and promotion through an embedded pointer); 20 annotation spellings (value/pointer contract; unqualified, package name, explicit alias, declared name != path element, path element, unknown package, unknown interface, current package's own name) on any one of 7 types: the code reported at the type equals the verdict computed with go/types (import bindings, Scope.Lookup, types.Implements)", Bounds: map[string]interface{}{"types": 7, "spellings": 20, "annotated_types_at_a_time": 1}},
+				{Harness: "zzverif/zzh.ZZC05Zoo", Desc: "three-package zoo (interfaces with []byte, variadic vs slice, pointer depth, alias-typed and named parameters, func and map parameters, embedded interface, empty interface, a non-interface; types with value/pointer receivers and promotion through an embedded pointer); 20 annotation spellings (value/pointer contract; unqualified, package name, explicit alias, declared name != path element, path element, unknown package, unknown interface, current package's own name) on any one of 7 types: the code reported at the type equals the verdict computed with go/types (import bindings, Scope.Lookup, types.Implements)", Bounds: map[string]interface{}{"types": 9, "spellings": 24, "annotated_types_at_a_time": 1, "files": 2}},
 			},
 			Outside:     []string{"type shapes not in the zoo (channels, generic types, unexported methods across packages, nested aliases inside composite types)", "the list of methods printed by IMPL03 (only the verdict is compared)", "several annotated types in one package at a time"},
 			Assumptions: []string{"the oracle is go/types itself, called as host code on the type-checked skeleton", "as C01-C04"},
